@@ -205,6 +205,26 @@ def register(reg):
         _http1="bool", _http2="bool", _network_backend="ref:" + NB, _connect_lock="ref:" + LOCK, _connection="ref:" + CI, _connect_failed="bool",
     )
 
+    @reg.contract
+    class SocksInit(Contract):
+        key = SOCKS + ".__init__"
+        props = ("C09", "C10", "C11")
+        suspends = False
+        params = {"proxy_auth": "val", "ssl_context": "val", "keepalive_expiry": "opt:real", "http1": "bool", "http2": "bool", "network_backend": "ref:" + NB}
+
+        def requires(self, c):
+            return [("backend_given", c.args["network_backend"].t > 0)]
+
+        def ensures(self, c):
+            s, a, e, st = c.self, c.args, c.eng, c.st
+            return [
+                ("stores_both_origins", ("C10", "C11"), z3.And(F(c, s, "SK._proxy_origin") == a["proxy_origin"].t, F(c, s, "SK._remote_origin") == a["remote_origin"].t)),
+                ("stores_credentials_and_tls_context", ("C11", "C10"), z3.And(F(c, s, "SK._proxy_auth") == e.to_val(st, a["proxy_auth"]).t, F(c, s, "SK._ssl_context") == e.to_val(st, a["ssl_context"]).t)),
+                ("stores_protocol_switches_and_backend", ("C10",), z3.And(F(c, s, "SK._http1") == a["http1"].t, F(c, s, "SK._http2") == a["http2"].t, F(c, s, "SK._network_backend") == a["network_backend"].t)),
+                ("stores_keepalive_expiry", ("C09",), e.z_bool(e.eq(st, c.new(s, "SK._keepalive_expiry"), a["keepalive_expiry"]))),
+                ("starts_unconnected", ("C10", "C05"), z3.And(F(c, s, "SK._connection") == 0, z3.Not(F(c, s, "SK._connect_failed")))),
+            ]
+
     def rely(it, st, old):
         eng = it.eng
         s = getattr(it.ctx, "self", None)
@@ -224,7 +244,7 @@ def register(reg):
     class SocksHandle(Contract):
         key = SOCKS + ".handle_async_request"
         callsite_events = {'H11.__init__', 'H2.__init__', 'net.start_tls', 'call:httpcore._async.socks_proxy._init_socks5_connection', 'ci.handle_request', 'net.connect_tcp'}
-        props = ("C11", "C10", "C16", "C05", "C06", "C07", "C15", "C14", "C04", "C08")
+        props = ("C11", "C10", "C16", "C05", "C06", "C07", "C15", "C14", "C04", "C08", "C09")
         raises = CONN_RAISES + ["Cancelled"]
         raises_props = ("C15",)
         max_paths = 40000
@@ -250,7 +270,7 @@ def register(reg):
                 out += [
                     ("socks_tcp_goes_to_the_proxy", ("C10", "C11"), z3.And(e.coerce(st, d["host"], "str").t == decode_ascii(F(c, po, "Origin.host")), e.coerce(st, d["port"], "int").t == F(c, po, "Origin.port"))),
                     ("socks_tcp_connect_timeout", ("C16",), d["timeout"].t == timeout_of(ext, "connect")),
-                    ("socks_connect_under_lock_and_only_once", ("C04", "C08"), z3.And(z3.BoolVal(lid in c.st.held), F(c, s, "SK._connection") == 0)),
+                    ("socks_connect_under_lock_and_only_once", ("C04", "C08", "C06"), z3.And(z3.BoolVal(lid in c.st.held), F(c, s, "SK._connection") == 0)),
                 ]
             if ev.name == "call:" + INIT:
                 k = ev.data["kwargs"]
@@ -286,6 +306,7 @@ def register(reg):
                 secure = is_tls_scheme(F(c, ro, "Origin.scheme"))
                 out += [
                     ("no_http_before_negotiation_succeeded", ("C11",), len(negs) == 1),
+                    ("socks_connection_gets_keepalive_expiry", ("C09",), c.eng.z_bool(c.eng.eq(c.st, c.eng.coerce(c.st, d.get("keepalive_expiry", NONE), "opt:real"), c.new(s, "SK._keepalive_expiry")))),
                     ("socks_connection_is_for_the_remote_origin", ("C10", "C01"), d["origin"].t == F(c, s, "SK._remote_origin")),
                     ("socks_tls_iff_https_or_wss", ("C10",), z3.If(secure, z3.BoolVal(len(tls) == 1), z3.BoolVal(len(tls) == 0))),
                     ("socks_connection_gets_the_negotiated_stream", ("C10", "C06"), z3.Or(d["stream"].t == conns[0].data["result"].t, F(c, d["stream"], "NS.wraps") == conns[0].data["result"].t) if len(conns) == 1 else False),
@@ -324,7 +345,7 @@ def register(reg):
         @reg.contract
         class Obs(Contract):
             key = SOCKS + "." + name
-            props = ("C05", "C09", "C01", "C06")
+            props = ("C05", "C09", "C01", "C06", "C04")
             result_kind = "bool"
             suspends = False
 
@@ -338,7 +359,7 @@ def register(reg):
                     z3.And(r == unconnected(c), z3.BoolVal(len(evs) == 0)),
                     z3.And(z3.BoolVal(len(evs) == 1), r == evs[0].data["result"].t, evs[0].data["conn"].t == conn.t) if evs else z3.BoolVal(False),
                 )
-                return [("delegates_or_reports_connect_state", ("C05", "C09", "C01", "C06"), goal)]
+                return [("delegates_or_reports_connect_state", ("C05", "C09", "C01", "C06", "C04"), goal)]
 
         Obs.__name__ = "ObsSK_" + name
 
